@@ -176,7 +176,7 @@ func GenLongPath(rt *rapid.T, used []string, label string) string {
 			return base[:2*gen.Uniform(rt, 4, nb, label+"_t")]
 		case 2:
 			p := base
-			for i := gen.Uniform(rt, 1, 8, label+"_x"); i > 0 && len(p) < 48; i-- {
+			for i := gen.Uniform(rt, 1, 8, label+"_x"); i > 0 && len(p) < 96; i-- {
 				p += b(label + "_e")
 			}
 			return p
@@ -189,7 +189,11 @@ func GenLongPath(rt *rapid.T, used []string, label string) string {
 		}
 	}
 	p := ""
-	for i := gen.Uniform(rt, 8, 20, label+"_len"); i > 0; i-- {
+	nlen := gen.Uniform(rt, 8, 20, label+"_len")
+	if gen.Chance(rt, 20, label+"_vlong") {
+		nlen = gen.Uniform(rt, 33, 44, label+"_vlen") // longer than a 32-byte hash key: merged paths exceed 64 elements
+	}
+	for i := nlen; i > 0; i-- {
 		p += b(label + "_b")
 	}
 	return p
@@ -204,11 +208,15 @@ func GenFixedPath(rt *rapid.T, nBytes int, label string) string {
 	return p
 }
 
-var valueBytes = []byte{':', 0x00, 'a', '0', 'f', 0x91, 0xc4, 0xff, 0x02, 0x04, 0x08}
+var valueBytes = []byte{':', 0x00, 'a', '0', 'f', 0x91, 0xc4, 0xc0, 0xff, 0x01, 0x02, 0x04, 0x08}
 
-// GenValue draws 1..12 bytes biased towards separators, zero bytes, hex digits and msgpack heads.
+// GenValue draws 1..12 bytes (one value in eight: 13..48 bytes) biased towards separators, zero bytes, hex digits,
+// msgpack heads (0x91, 0xc4, 0xc0 = nil) and the node type codes 1, 2, 4, 8.
 func GenValue(rt *rapid.T, label string) []byte {
 	n := rapid.IntRange(1, 12).Draw(rt, label+"_n")
+	if gen.Chance(rt, 12, label+"_long") {
+		n = gen.Uniform(rt, 13, 48, label+"_nl")
+	}
 	v := make([]byte, n)
 	for i := range v {
 		if gen.Chance(rt, 33, label+"_s") {
